@@ -949,6 +949,10 @@ class Exec(Interp):
             return (s, t['target'])
 
         res = c.get('res')
+        ov = getattr(self, 'callee_overrides', None)
+        if ov and c.get('def') in ov:
+            # a rule supplies the abstract result of this (external) callee, e.g. what a derived Deserialize hands back
+            return [ret(st, ov[c['def']](self, st, fr, t))]
         if res is None and c.get('def') is not None and c['def'] in getattr(self, 'abstract_trait_fns', {}):
             # required trait method of the type parameter, given an abstract value by the rule (e.g. the price accessors of T: OHLCV)
             return [ret(st, self.abstract_trait_fns[c['def']])]
